@@ -33,6 +33,10 @@ func doSnappyEncode(data []byte) []byte {
 }
 
 func doSnappyDecode(buf []byte) ([]byte, error) {
+	// 无数据（如HEAD请求的响应）无需解压
+	if len(buf) == 0 {
+		return nil, nil
+	}
 	var dst []byte
 	return snappy.Decode(dst, buf)
 }
